@@ -480,6 +480,38 @@ fn step2(w: &mut World, op: &R1Op, mut a: Args, before: Cost, dup: bool) -> Reso
                 None => failed = true,
             }
         }
+        R1Op::IsZero(i) => {
+            let id = need!(a.e(w, *i));
+            let undefined = undefined_e(&w.es[&id]);
+            if const_invalid(&w.es[&id]) {
+                return Resolved { ins: a.ins, outs, skipped: true, failed: false };
+            }
+            let _ = w.force_element(id, "is_zero");
+            let ev = w.es.remove(&id).unwrap();
+            let r = guard(w, name, !undefined, || <ElementVar as CurveVar<Element, Fq>>::is_zero(&ev.var));
+            let (elem, cst, poisoned) = (ev.elem, ev.cst, ev.poisoned);
+            w.es.insert(id, ev);
+            match r {
+                Some(Ok(b)) => {
+                    let native = if poisoned { None } else { elem.map(|e| e.is_identity()) };
+                    check_bool(w, name, &b, native);
+                    let out = w.push_b(BV {
+                        var: b,
+                        val: native,
+                        cst,
+                    });
+                    if !cst {
+                        w.rels.push(Rel::IsZero { a: Id::E(id), out });
+                    }
+                    outs.push(out);
+                }
+                Some(Err(e)) => {
+                    failed = true;
+                    gadget_failed(w, name, !undefined, e);
+                }
+                None => failed = true,
+            }
+        }
         R1Op::IsEq(i, j) | R1Op::EnforceEq(i, j) | R1Op::EnforceNe(i, j) => {
             let ia = need!(a.e(w, *i));
             let ib = need!(a.e(w, *j));
